@@ -203,7 +203,9 @@ pub fn compare(r: &RefMsg, o: &ObsMsg) -> Vec<Mismatch> {
             None if matches!(e.exp, Exp::Skip) => {}
             None => out.push(Mismatch {
                 key: keyname(e.key, e.idx),
-                prop: if e.idx == 255 { e.prop } else { 14 },
+                // the field's own property: a value that is not reported at all is not
+                // reported correctly either (the element count itself is C14's)
+                prop: e.prop,
                 expected: format!("{:?}", e.exp),
                 observed: "<field not reported>".into(),
             }),
